@@ -114,5 +114,5 @@ def strat(tier):
     return c()
 
 
-SUBS = [Sub("episodes", execute, strategy=strat, budget={"quick": 3000, "thorough": 50000}, shards=16)]
+SUBS = [Sub("episodes", execute, strategy=strat, budget={"quick": 4500, "thorough": 50000}, shards=16)]
 TIME_CAP = {"quick": 400, "thorough": 3000}
